@@ -135,6 +135,7 @@ def extra(ctx):
     import glue_checks
     reader_labels(ctx)
     glue_checks.single_suite(ctx, {'labels'}, [dict(max_n=4, multi=True), dict(max_n=4, multi=True, mixed_heads=True, nbest_max=3), dict(max_n=3, multi=True, identity=True)], ctx.budget(600, 6000))
+    glue_checks.real_grammar_suite(ctx, {'labels'}, ctx.budget(100, 1000))
 
 
 def run(ctx):
